@@ -47,6 +47,11 @@ fn exec_cfg(text: &str, both: bool, out: &mut Out) -> Result<Exec, String> {
     let _ = cteepbd::verif_hooks::take();
     out.evals += 1;
     let c = subj::parse(text).map_err(|e| format!("parse: {}", subj::err_kind(&e)))?;
+    exec_comps(c, both, out)
+}
+
+/// the same for a component set built through the public API
+fn exec_comps(c: cteepbd::Components, both: bool, out: &mut Out) -> Result<Exec, String> {
     let f = subj::fset("PENINSULA");
     let ep = subj::eval(&c, f, 0.5, 2.0, true).map_err(|e| format!("eval: {}", subj::err_kind(&e)))?;
     let mag = subj::magnitude(&c, f);
@@ -189,6 +194,24 @@ impl StateCheck for C10 {
             Ok(e) => compare(&base, &e, what, &[what.split(':').next().unwrap_or("")], out),
             Err(e) => out.viol("rewriting_accepted", &[what.split(':').next().unwrap_or("")], what, format!("{e} on `{}`", t2.trim().replace('\n', " | ")), "evaluates like the base file"),
         };
+        // 0. the same declared lines assembled through a history of library calls (part of the file read, one component
+        //    pushed, normalized again; normalized twice)
+        if !self.light {
+            for v in crate::hist::variants(text, 5) {
+                let what = format!("history: {}", v.desc);
+                match v.comps {
+                    Ok(c) => {
+                        let _ = cteepbd::verif_hooks::take();
+                        out.evals += 1;
+                        match exec_comps(c, true, out) {
+                            Ok(e) => compare(&base, &e, &what, &["history"], out),
+                            Err(e) => out.viol("rewriting_accepted", &["history"], what.as_str(), e, "evaluates like the base file"),
+                        }
+                    }
+                    Err(e) => out.viol("rewriting_accepted", &["history"], what.as_str(), e, "evaluates like the base file"),
+                }
+            }
+        }
         // 1. line order
         if n >= 2 {
             out.nontrivial = true;
